@@ -189,6 +189,8 @@ type streamGRPC struct {
 	ctx             context.Context
 	done            <-chan struct{} // ctx.Done()
 	wg              sync.WaitGroup
+	wgMu            sync.Mutex // orders every wg.Add before the handler-return wg.Wait
+	returned        bool       // the handler has returned (guarded by wgMu)
 	handler         *handler
 	codec           Codec      // both read and write
 	comp            Compressor // both read and write
@@ -200,6 +202,20 @@ type streamGRPC struct {
 	contentType     string
 	messageEncoding string
 	sentHeader      bool
+}
+
+// enter registers a stream call with the handler-return fence in serveGRPC.
+// It reports false once the handler has returned: a goroutine the handler left
+// behind (the proxy's pump) may still call in, and a WaitGroup must not see an
+// Add from zero that is concurrent with its Wait.
+func (s *streamGRPC) enter() bool {
+	s.wgMu.Lock()
+	defer s.wgMu.Unlock()
+	if s.returned {
+		return false
+	}
+	s.wg.Add(1)
+	return true
 }
 
 func (s *streamGRPC) isDone() error {
@@ -219,7 +235,9 @@ func (s *streamGRPC) SetHeader(md metadata.MD) error {
 	return nil
 }
 func (s *streamGRPC) SendHeader(md metadata.MD) error {
-	s.wg.Add(1)
+	if !s.enter() {
+		return s.isDone() // the handler has returned: its context is done
+	}
 	defer s.wg.Done()
 
 	if err := s.isDone(); err != nil {
@@ -278,7 +296,9 @@ func (s *streamGRPC) compress(dst *bytes.Buffer, b []byte) error {
 }
 
 func (s *streamGRPC) SendMsg(m interface{}) error {
-	s.wg.Add(1)
+	if !s.enter() {
+		return s.isDone() // the handler has returned: its context is done
+	}
 	defer s.wg.Done()
 
 	if err := s.isDone(); err != nil {
@@ -367,7 +387,9 @@ func (s *streamGRPC) decompress(dst *bytes.Buffer, b []byte) error {
 }
 
 func (s *streamGRPC) RecvMsg(m interface{}) error {
-	s.wg.Add(1)
+	if !s.enter() {
+		return s.isDone() // the handler has returned: its context is done
+	}
 	defer s.wg.Done()
 
 	if err := s.isDone(); err != nil {
@@ -576,6 +598,9 @@ func (m *Mux) serveGRPC(w http.ResponseWriter, r *http.Request) {
 	// Sync handler return to stream methods.
 	defer func() {
 		cancel()
+		stream.wgMu.Lock()
+		stream.returned = true
+		stream.wgMu.Unlock()
 		stream.wg.Wait()
 	}()
 
